@@ -195,7 +195,11 @@ class Checker:
                                f"ValueError: {str(err)[:200]}"))
                 return out
             out["fparser_ok"] = False
-            return out                  # reported with gfortran's verdict
+            out["failures"].append(
+                ("syntax", f"'{text}' is rejected by fparser "
+                           f"(Fortran2003.Expr), so PSyclone cannot read "
+                           f"its own output"))
+            return out
         except Exception as err:        # pylint: disable=broad-except
             out["fparser_ok"] = True
             out["failures"].append(
@@ -222,16 +226,19 @@ class Checker:
                     f"{exact}, gfortran {got['F'].get(val)!r}; tree "
                     f"{G.canon(ent['spec'])}")
 
-    def gfortran(self, entries, sample=REFERENCE_SAMPLE):
+    def gfortran(self, entries, sample=REFERENCE_SAMPLE, full=False):
         """entries: list of dict(spec, text, fparser_ok, failures).  Adds
         the failures of the syntax and value oracles.
 
-        The text under test of every entry is compiled and evaluated.  The
-        own reference text is compiled and evaluated (a) for every
-        `sample`-th entry and (b) for every entry whose verdict depends on
-        gfortran (rejected although fparser accepts; value mismatch;
-        crash): if the reference text is rejected too, or its value is not
-        the evaluator's, the harness is wrong -> HarnessError."""
+        The text under test of every entry is compiled and evaluated
+        (texts that fparser rejected already failed the syntax oracle; they
+        are only given to gfortran when `full` is set - replay and
+        minimisation - to add its verdict to the message).  The own
+        reference text is compiled and evaluated (a) for every `sample`-th
+        entry and (b) for every entry whose verdict depends on gfortran
+        (rejected although fparser accepts; value mismatch; crash): if the
+        reference text is rejected too, or its value is not the
+        evaluator's, the harness is wrong -> HarnessError."""
         if not entries:
             return
         items = []
@@ -239,11 +246,20 @@ class Checker:
             vals, why = E.values(ent["spec"])
             ent["vals"], ent["why"] = vals, why
             mask = sum(1 << v for v in vals)
-            items.append({"id": idx, "ptext": ent["text"],
+            ptext = ent["text"]
+            if ent["fparser_ok"] is False and not full:
+                ptext = None
+            # a text that is read back differently may group its
+            # operations differently and then e.g. divide by zero: such
+            # items run in a process of their own, and with the reference
+            risky = any(o == "reread" for o, _ in ent["failures"])
+            items.append({"id": idx, "ptext": ptext,
                           "ftext": E.paren_text(ent["spec"]),
-                          "rtype": G.stype(ent["spec"])[0], "mask": mask})
-        first = [dict(it, ftext=it["ftext"] if it["id"] % sample == 0
-                      else None) for it in items]
+                          "rtype": G.stype(ent["spec"])[0], "mask": mask,
+                          "risky": risky and ptext is not None})
+        first = [dict(it, ftext=it["ftext"] if (it["id"] % sample == 0 or
+                                                it["risky"]) else None)
+                 for it in items]
         res = self.runner.run(first)
         confirm = []
         for idx, ent in enumerate(entries):
@@ -252,16 +268,21 @@ class Checker:
             rty = item["rtype"]
             if first[idx]["ftext"] is not None:
                 self._check_reference(ent, item, got)
-            if ent["text"] is None:
+            if item["ptext"] is None:
                 continue
             fp_ok = ent["fparser_ok"]
             needs_confirm = False
-            if got["perr"] or not fp_ok:
+            if not fp_ok:
+                # full mode: add gfortran's verdict to the message
+                ent["failures"] = [
+                    (o, m + f"; gfortran -std=f2008: "
+                     f"{got['perr'] or 'accepts'}") if o == "syntax"
+                    else (o, m) for o, m in ent["failures"]]
+            elif got["perr"]:
                 ent["failures"].append(
-                    ("syntax", f"'{ent['text']}': fparser "
-                     f"{'accepts' if fp_ok else 'rejects'}; gfortran "
-                     f"-std=f2008: {got['perr'] or 'accepts'}"))
-                needs_confirm = bool(got["perr"]) and fp_ok
+                    ("syntax", f"'{ent['text']}': fparser accepts; gfortran "
+                     f"-std=f2008: {got['perr']}"))
+                needs_confirm = True
             if got["crash"]:
                 ent["failures"].append(
                     ("value", f"'{ent['text']}': the program crashed "
@@ -282,7 +303,8 @@ class Checker:
             if needs_confirm and first[idx]["ftext"] is None:
                 confirm.append(idx)
         if confirm:
-            second = [dict(items[idx], ptext=None) for idx in confirm]
+            second = [dict(items[idx], ptext=None, risky=False)
+                      for idx in confirm]
             res2 = self.runner.run(second)
             for idx in confirm:
                 self._check_reference(entries[idx], items[idx], res2[idx])
@@ -292,7 +314,7 @@ class Checker:
         spec = G.fix(spec)
         ent = self.inproc(spec)
         ent["spec"] = spec
-        self.gfortran([ent], sample=1)
+        self.gfortran([ent], sample=1, full=True)
         return ent["failures"]
 
 
@@ -418,7 +440,7 @@ class Reporter:
             ent["spec"] = cand
             fails = dict(ent["failures"])
             if oracle not in fails and oracle in ("syntax", "value"):
-                chk.gfortran([ent])
+                chk.gfortran([ent], sample=1)
                 fails = dict(ent["failures"])
             if oracle in fails:
                 msgs[G.canon(cand)] = fails[oracle]
@@ -520,6 +542,8 @@ def run(ctx):
     finally:
         ctx.extra["gfortran_compiles"] = \
             chk.runner.compiles if chk._runner else 0
+        ctx.extra["gfortran_executions"] = \
+            chk.runner.executions if chk._runner else 0
         chk.close()
 
 
